@@ -303,7 +303,7 @@ pub fn run(run: &Run) {
     });
 
     // ---- family 3: random programs
-    let n = run.opts.size(60_000, 8_000_000);
+    let n = run.opts.size(600_000, 20_000_000);
     run.parallel("random", n, |i, l| {
         let mut r = Rng::derive(seed, "c01-random", i);
         let eng = &envs[r.below(2)];
